@@ -1399,3 +1399,76 @@ gen_C01 = _with_big(gen_C01, GB.gen_C01_big)
 gen_C17 = _with_big(gen_C17, GB.gen_C17_big)
 gen_C05 = _with_big(gen_C05, GB.gen_C05_big)
 gen_C20 = _with_big(gen_C20, GB.gen_C20_big)
+
+
+# ------------------------------------------------------------------------------------------------
+def tls_conv(sid, rng, mode="lockstep", cert=False, server_cert_req=False, user=b"tlsuser", auth="accept", ncmd=3):
+    c = Conv(sid, mode=mode, hs=False, tls=True, auth=auth)
+    c.client_tls = True
+    c.client_cert = cert
+    c.server_client_cert = server_cert_req
+    c.raw(frame(ssl_request(), 1), reply=False)
+    c.raw(frame(handshake41(user, caps=0xa200 | CAP_SSL), 2), True)
+    if auth == "accept":
+        for j in range(ncmd):
+            r = rng.random()
+            if r < 0.4:
+                c.query("SELECT %d" % j, rng.choice([[op_completed(j, 1)], rows_program(rng.randint(0, 3))]))
+            elif r < 0.6:
+                c.ping()
+            elif r < 0.8:
+                c.prepare("P", prep_ok(4, [col("p", T_LONG)], [col("c0", T_LONG)]))
+                c.execute(4, [p_int(T_LONG, j)], rows_program(1, True))
+            else:
+                c.init_db("db", [op_init_ok()])
+        c.ping()
+        c.quit()
+    else:
+        c.ping()
+    return c
+
+
+def gen_C18(rng, tier):
+    out = []
+    # every single cut around the SSL request / ClientHello boundary
+    upto = 300 if tier == "quick" else 420
+    step = 1
+    for k in range(1, upto, step):
+        c = tls_conv("C18-cut%03d" % k, rng, mode="lockstep" if k % 2 else "pipelined", cert=(k % 7 == 0), server_cert_req=(k % 7 == 0 or k % 11 == 0), ncmd=2)
+        sc = c.build()
+        sc["transport"]["cuts"] = [k]
+        out.append(sc)
+    # all pairs of cuts in [30, 44]
+    for a in range(30, 45):
+        for b_ in range(a + 1, 45):
+            if tier == "quick" and (a + b_) % 3:
+                continue
+            c = tls_conv("C18-pair%02d-%02d" % (a, b_), rng, ncmd=1)
+            sc = c.build()
+            sc["transport"]["cuts"] = [a, b_]
+            out.append(sc)
+    # one-byte reads throughout, and random chunkings of the whole handshake
+    for i in range(3 if tier == "quick" else 12):
+        c = tls_conv("C18-ones%02d" % i, rng, cert=(i % 2 == 0), server_cert_req=(i % 2 == 0), ncmd=2)
+        c.chunks, c.then = [], 1
+        out.append(c.build())
+    for i in range(60 if tier == "quick" else 800):
+        c = tls_conv("C18-rnd%03d" % i, rng, mode=rng.choice(["lockstep", "pipelined"]), cert=rng.random() < 0.4,
+                     server_cert_req=rng.random() < 0.5, user=rng.choice([b"u", b"", b"\xff\xfe", b"x" * 200]),
+                     auth=rng.choice(["accept", "accept", "accept", "reject"]), ncmd=rng.randint(0, 5))
+        c.chunks = [rng.choice([1, 2, 3, 5, 8, 13, 40, 100, 500, 0]) for _ in range(rng.randint(1, 80))]
+        c.then = rng.choice([0, 0, 7, 64])
+        out.append(c.build())
+    # TLS requested from a shim that offers none: refused with an error before after_authentication
+    for i in range(8 if tier == "quick" else 60):
+        c = Conv("C18-notls%02d" % i, mode="pipelined", hs=False, tls=False)
+        c.raw(frame(ssl_request(), 1), reply=False)
+        c.raw([22, 3, 1, 0, 5, 1, 2, 3, 4, 5] + [rng.getrandbits(8) for _ in range(rng.randint(0, 30))], reply=False)
+        c.chunks, c.then = rand_chunks(rng)
+        out.append(c.build())
+    # plaintext clients against a TLS-offering shim still work
+    for i in range(5 if tier == "quick" else 40):
+        c = Conv("C18-plain%02d" % i, mode="lockstep", tls=True)
+        c.query("Q", [op_completed(1, 1)]).ping().quit()
+        out.append(c.build())
+    return out
